@@ -27,12 +27,10 @@ static bool accepts(bool dbd, const std::string & name, int mode, std::string & 
       g.set_decay_isotope(name);
     }
     g.initialize(t);
+    // accepted means: initialize() returns.  (A name that initialises and then yields nothing is accepted all the same - and wrong.)
     bxdecay0::event e;
     g.shoot(t, e);
-    if (e.get_particles().empty()) {
-      why = "initialises but generates an empty event";
-      return false;
-    }
+    if (e.get_particles().empty()) why = "EMPTY-EVENTS";
     return true;
   } catch (std::exception & x) {
     why = x.what();
@@ -93,7 +91,7 @@ int main(int argc, char ** argv)
       ok = accepts(false, name, 0, why);
     }
     fprintf(OUT, "%s{\"kind\":%s,\"name\":%s,\"accepted\":%s,\"why\":%s}", first ? "" : ",", jstr(kind).c_str(), jstr(name).c_str(), ok ? "true" : "false",
-            jstr(ok ? "" : why.substr(0, 120)).c_str());
+            jstr(why.substr(0, 120)).c_str());
     first = false;
   }
   fprintf(OUT, "]}\n");
